@@ -311,13 +311,17 @@ package rapid
 //@ event StoreRuntimeExit = call appctx.StoreFirstFatalError when a1 == fatalerror.RuntimeExit
 //@ event StoreAgentCrash = call appctx.StoreFirstFatalError when a1 == fatalerror.AgentCrash
 //@ event DefaultErrorBuilt = ret interop.GetErrorResponseWithFormattedErrorMessage
+//@ event GenerationChecked = call strings.HasSuffix
+//@ event ExitOfCurrentGeneration = ret strings.HasSuffix when r0
+//@ event ExitOfEarlierGeneration = ret strings.HasSuffix when !r0
 //@ event DefaultErrorBuiltFrom = call interop.GetErrorResponseWithFormattedErrorMessage
 
 // every termination event: one exit notification to the shutdown bookkeeping, then the flows are cancelled; outside a
 // shutdown a fatal error is recorded first (runtime exit or extension crash, nothing else) and the cancellation carries an error
 //@ func (*rapidContext).watchEvents
 //@   requires c != nil && c.shutdownContext != nil
-//@   loop for event := range events: invariant [per-event] delta(TerminationHandled) == delta(FlowsCancelled) && delta(ShuttingDownAsked) == delta(FlowsCancelled) && delta(StoreFatalAny) == delta(NotShuttingDown) && delta(StoreRuntimeExit) + delta(StoreAgentCrash) == delta(StoreFatalAny) && delta(FlowsCancelledWithoutError) == delta(ShuttingDownAsked) - delta(NotShuttingDown) && (delta(FlowsCancelled) >= 1 ==> last(TerminationHandled) < last(FlowsCancelled)) && (delta(StoreFatalAny) >= 1 ==> last(StoreFatalAny) <= now())
+//@   loop for event := range events: invariant [per-event] delta(FlowsCancelled) == delta(ExitOfCurrentGeneration) && delta(TerminationHandled) >= delta(FlowsCancelled) && delta(ShuttingDownAsked) == delta(FlowsCancelled) && delta(StoreFatalAny) == delta(NotShuttingDown) && delta(StoreRuntimeExit) + delta(StoreAgentCrash) == delta(StoreFatalAny) && delta(FlowsCancelledWithoutError) == delta(ShuttingDownAsked) - delta(NotShuttingDown) && (delta(FlowsCancelled) >= 1 ==> last(TerminationHandled) < last(FlowsCancelled) || delta(TerminationHandled) > delta(FlowsCancelled)) && (delta(StoreFatalAny) >= 1 ==> last(StoreFatalAny) <= now())
+//@   loop for event := range events: invariant [earlier-generations-do-not-disturb] delta(StoreFatalAny) <= delta(ExitOfCurrentGeneration) && delta(FlowsCancelled) <= delta(ExitOfCurrentGeneration) && delta(GenerationChecked) == delta(ExitOfCurrentGeneration) + delta(ExitOfEarlierGeneration)
 
 // the failure message: error type = first recorded fatal error, else Sandbox.Failure
 //@ func newInvokeFailureMsg
